@@ -712,7 +712,7 @@ def build_unit(template_path, src_dir, verus_dir):
             sig, req, ens = template_fn_header(ttext, kv["fn"])
             if req != norm(kv["req"]):
                 raise LostAnchor("%s in %s requires `%s`, this unit assumes `%s`" % (kv["fn"], kv["unit"], req, kv["req"]))
-            clauses = [kv["clause"]] + ([kv["clause2"]] if kv.get("clause2") else [])
+            clauses = [kv["clause"]] + ([kv["clause2"]] if kv.get("clause2") else []) + ([kv["clause3"]] if kv.get("clause3") else [])
             if kv.get("clauseH"):
                 # the static-height clause, with whatever constant the verifying unit proves (1: expression, 0: statement)
                 hm = re.search(r"r is Ok ==> hstep\(old\(self\)\.height@, final\(self\)\.height@, (\d+)\)", ens)
